@@ -9,6 +9,7 @@ import (
 	"time"
 
 	"github.com/zeromicro/go-zero/core/logx"
+	"github.com/zeromicro/go-zero/core/stat"
 	"github.com/zeromicro/go-zero/core/stores/redis"
 
 	"verifsim/simharness"
@@ -62,6 +63,12 @@ var masked = map[string]bool{}
 
 func init() {
 	logx.Disable()
+	// The breaker reports "breaker is open" through stat.Report, which rate-limits with a
+	// process-global LessExecutor (one alert per 5 min of timex time): its lastTime would leak
+	// from one simulated run into the next and change the number of scheduling points of a
+	// later run.  stat's own init tries to switch the reporter off under "go test" (it looks
+	// for the test.v flag, which is not registered yet at init time); do it explicitly.
+	stat.SetReporter(nil)
 	for _, c := range strings.Split(os.Getenv("VERIF_C19_MASK"), ",") {
 		if c = strings.TrimSpace(c); c != "" {
 			masked[c] = true
@@ -446,11 +453,11 @@ func (w *world) drawCtx() (context.Context, context.CancelFunc, string) {
 	case 1:
 		d := []time.Duration{10 * time.Second, 3500 * ms, time.Second, 50 * ms, ms}[t.Intn(5)]
 		ctx, c := context.WithTimeout(context.Background(), d)
-		return ctx, c, fmt.Sprintf("ctx(%v)", d)
+		return ctx, c, fmt.Sprintf("Ctx[timeout %v]", d)
 	case 2:
 		ctx, c := context.WithCancel(context.Background())
 		c()
-		return ctx, c, "ctx(cancelled)"
+		return ctx, c, "Ctx[already cancelled]"
 	}
 	return nil, func() {}, ""
 }
@@ -714,16 +721,45 @@ func body(r *simrt.Run, tier string) {
 	enabled := true
 	outages := 0
 	var rates simredis.Rates
+	// Outage windows are realised by the harness' own fault functions instead of srv.SetDown:
+	// while the window is open every dial is refused and every command on an established
+	// connection is reset before it reaches the server -- but at most maxRefused dials are
+	// refused per run, after that connections are accepted and only the commands are reset.
+	// Reason: go-redis counts dial errors per client and, once they reach PoolSize
+	// (= 10*GOMAXPROCS, so 10 in the GOMAXPROCS=1 self-test processes), switches to a fail-fast
+	// mode and starts its own prober goroutine (pool.tryDial) from uninstrumented code; that
+	// goroutine is not a task of the simulation (it inherits the spawning task's identity) and
+	// the threshold depends on GOMAXPROCS, so runs would not be reproducible across processes.
+	const maxRefused = 5
+	down, refused, dialRate := false, 0, 0
 	if w.faulty {
 		lvl := func() int { return []int{0, 15, 50, 120}[t.Intn(4)] }
 		rates = simredis.Rates{DropReply: lvl(), DropRequest: lvl(), Latency: lvl(), ResetBefore: lvl(), ResetAfter: lvl(), Truncate: []int{0, 0, 15, 40}[t.Intn(4)],
 			MaxDelay: []time.Duration{50 * ms, 700 * ms, 4 * time.Second}[t.Intn(3)], Enabled: &enabled}
-		srv.Fault = simredis.Policy(r, rates)
+		policy := simredis.Policy(r, rates)
+		srv.Fault = func(c *simredis.Cmd) simredis.Fault {
+			if down && enabled {
+				r.Probe("outage-command-reset")
+				return simredis.Fault{Kind: simredis.ResetBefore}
+			}
+			return policy(c)
+		}
 		if t.Chance(1, 3) {
 			outages = t.Range(1, 2)
 		}
-		if dr := []int{0, 0, 30, 150}[t.Intn(4)]; dr > 0 {
-			srv.DialFault = func(int) bool { return enabled && t.Intn(1000) >= 1000-dr }
+		dialRate = []int{0, 0, 30, 150}[t.Intn(4)]
+		srv.DialFault = func(int) bool {
+			if !enabled || refused >= maxRefused {
+				return false
+			}
+			if down || (dialRate > 0 && t.Intn(1000) >= 1000-dialRate) {
+				refused++
+				if down {
+					r.Probe("outage-dial-refused")
+				}
+				return true
+			}
+			return false
 		}
 	}
 	srv.OnExec = w.onExec
@@ -738,13 +774,16 @@ func body(r *simrt.Run, tier string) {
 		if perInstanceStore {
 			store = redis.New(srv.Addr, redis.WithHook(srv.Hook()))
 		}
-		k := w.keys[t.Intn(nKeys)]
+		k := w.keys[0] // the first two instances always compete for the same key
+		if i >= 2 {
+			k = w.keys[t.Intn(nKeys)]
+		}
 		cl := &client{idx: i, k: k, lock: redis.NewRedisLock(store, k.name)}
 		w.cls = append(w.cls, cl)
 		steps[i] = t.Range(1, maxSteps)
 	}
 	if r.Tracing() {
-		r.Logf("c19: instances=%d keys=%d steps=%v faulty=%v rates=%+v outages=%d overstay=%v perInstanceStore=%v", nInst, nKeys, steps, w.faulty, rates, outages, w.overstay, perInstanceStore)
+		r.Logf("c19: instances=%d keys=%d steps=%v faulty=%v rates=%+v outages=%d dialRefusePerMille=%d overstay=%v perInstanceStore=%v", nInst, nKeys, steps, w.faulty, rates, outages, dialRate, w.overstay, perInstanceStore)
 	}
 	var tasks []*simrt.Task
 	for i, cl := range w.cls {
@@ -756,10 +795,10 @@ func body(r *simrt.Run, tier string) {
 		outTask = r.Go("outage", func() {
 			for i := 0; i < outages; i++ {
 				r.Sleep(time.Duration(t.Range(0, 6000)) * ms)
-				srv.SetDown(true)
+				down = true
 				r.Probe("outage-window")
 				r.Sleep(time.Duration(t.Range(1, 8000)) * ms)
-				srv.SetDown(false)
+				down = false
 			}
 		})
 	}
@@ -772,7 +811,7 @@ func body(r *simrt.Run, tier string) {
 	}
 	// faults off; after every lease has run out anybody can acquire
 	enabled = false
-	srv.SetDown(false)
+	down = false
 	for _, k := range w.keys {
 		w.checkStore(k)
 	}
